@@ -182,7 +182,7 @@ def run(pid, tier, seed):
         scfgs = ["MC_sync_quick.cfg", "MC_sync_spurious.cfg"] if tier == "quick" else ["MC_sync_thorough.cfg", "MC_sync_spurious.cfg"]
         sync = dict(distinct=0, states=0, cfgs=scfgs)
         for sc in scfgs:
-            sm = engine_check.model_check(sc, "MC_sync.tla", timeout=600)
+            sm = engine_check.model_check(sc, "MC_sync.tla", timeout=600 if tier == "quick" else 2400)
             if sm["violated"]:
                 tr = os.path.join(vlib.REPLAY, pid); os.makedirs(tr, exist_ok=True)
                 p = os.path.join(tr, "tlc-counterexample-sync-%s.txt" % tier); open(p, "w").write(sm["out"][-200000:])
